@@ -21,18 +21,42 @@ class Crash(BaseException):
 
 
 class FS:
+    """paths -> inode ids -> bytes; file descriptors refer to inodes (so a rename or a second open of the same path behaves
+    like POSIX: an fd keeps writing to the file it opened, O_TRUNC empties the file every other holder sees)."""
+
     def __init__(self, files=None, alive=(), eperm=(), pid=1, crash_at=None):
-        self.files = dict(files or {})
-        self.fds = {}
+        self.paths = {}
+        self.inodes = {}
+        self.ninode = 0
+        for p, c in (files or {}).items():
+            self.paths[p] = self._new_inode(c)
+        self.fds = {}            # fd -> [inode, offset]
         self.alive = set(alive)
         self.eperm = set(eperm)
         self.pid = pid
         self.crash_at = crash_at
         self.mut = 0
         self.ntmp = 0
+        self.nfd = 1000
         self.log = []
+        self.before_mutating = None     # hook(name): preemption point for the interleaving obligations
+
+    def _new_inode(self, content=b""):
+        self.ninode += 1
+        self.inodes[self.ninode] = bytes(content)
+        return self.ninode
+
+    @property
+    def files(self):
+        """path -> content view (what an observer sees)"""
+        return {p: self.inodes[i] for p, i in self.paths.items()}
+
+    def put(self, path, content):
+        self.paths[path] = self._new_inode(content)
 
     def _mutating(self, what):
+        if self.before_mutating:
+            self.before_mutating(what)
         if self.crash_at is not None and self.mut == self.crash_at:
             raise Crash(what)
         self.mut += 1
@@ -49,20 +73,39 @@ class FS:
             raise OSError(errno.EPERM, "Operation not permitted")
         raise OSError(errno.ESRCH, "No such process")
 
+    def open_fd(self, path, flags, mode=0o600):
+        self._mutating("open")
+        if path in self.paths:
+            ino = self.paths[path]
+            if flags & _os.O_EXCL and flags & _os.O_CREAT:
+                raise OSError(errno.EEXIST, "File exists")
+            if flags & _os.O_TRUNC:
+                self.inodes[ino] = b""
+        else:
+            if not flags & _os.O_CREAT:
+                raise OSError(errno.ENOENT, "No such file or directory")
+            ino = self._new_inode()
+            self.paths[path] = ino
+        self.nfd += 1
+        self.fds[self.nfd] = [ino, 0]
+        return self.nfd
+
     def write(self, fd, data):
         self._mutating("write")
-        p = self.fds[fd]
-        self.files[p] = self.files.get(p, b"") + bytes(data)
+        ino, off = self.fds[fd]
+        cur = self.inodes[ino]
+        data = bytes(data)
+        if off > len(cur):
+            cur = cur + b"\0" * (off - len(cur))
+        self.inodes[ino] = cur[:off] + data + cur[off + len(data):]
+        self.fds[fd][1] = off + len(data)
         return len(data)
 
     def rename(self, a, b):
         self._mutating("rename")
-        if a not in self.files:
+        if a not in self.paths:
             raise OSError(errno.ENOENT, "No such file")
-        self.files[b] = self.files.pop(a)
-        for fd, p in list(self.fds.items()):
-            if p == a:
-                self.fds[fd] = b
+        self.paths[b] = self.paths.pop(a)
 
     def close(self, fd):
         self._mutating("close")
@@ -70,14 +113,14 @@ class FS:
 
     def chmod(self, p, mode):
         self._mutating("chmod")
-        if p not in self.files:
+        if p not in self.paths:
             raise OSError(errno.ENOENT, "No such file")
 
     def unlink(self, p):
         self._mutating("unlink")
-        if p not in self.files:
+        if p not in self.paths:
             raise OSError(errno.ENOENT, "No such file")
-        del self.files[p]
+        del self.paths[p]
 
     def fdopen(self, fd, mode="r", *a, **k):
         fs = self
@@ -105,16 +148,16 @@ class FS:
         self._mutating("mkstemp")
         self.ntmp += 1
         name = "%s/tmp%d" % (dir or "/tmp", self.ntmp)
-        self.files[name] = b""
-        fd = 1000 + self.ntmp
-        self.fds[fd] = name
-        return fd, name
+        self.paths[name] = self._new_inode()
+        self.nfd += 1
+        self.fds[self.nfd] = [self.paths[name], 0]
+        return self.nfd, name
 
     # open()
     def open(self, fname, mode="r"):
-        if fname not in self.files:
+        if fname not in self.paths:
             raise OSError(errno.ENOENT, "No such file or directory")
-        return io.StringIO(self.files[fname].decode("utf-8", "replace"))
+        return io.StringIO(self.inodes[self.paths[fname]].decode("utf-8", "replace"))
 
 
 def install(mod, fs):
@@ -122,6 +165,8 @@ def install(mod, fs):
     saved = (mod.os, mod.tempfile, getattr(mod, "open", None))
     path_ns = types.SimpleNamespace(dirname=_os.path.dirname, isdir=lambda d: True)
     mod.os = ns("mod.os", getpid=fs.getpid, kill=fs.kill, write=fs.write, rename=fs.rename, close=fs.close, fdopen=fs.fdopen,
+                open=fs.open_fd, O_WRONLY=_os.O_WRONLY, O_CREAT=_os.O_CREAT, O_TRUNC=_os.O_TRUNC, O_EXCL=_os.O_EXCL,
+                O_RDWR=_os.O_RDWR, O_RDONLY=_os.O_RDONLY, replace=fs.rename,
                                    chmod=fs.chmod, unlink=fs.unlink, path=path_ns)
     mod.tempfile = ns("mod.tempfile", mkstemp=fs.mkstemp)
     mod.open = fs.open
